@@ -7,6 +7,8 @@ import (
 	"sync"
 	"time"
 
+	"golang.org/x/exp/slices"
+
 	"github.com/keep-network/keep-core/pkg/net"
 	"github.com/keep-network/keep-core/pkg/protocol/group"
 	"github.com/keep-network/keep-core/pkg/tecdsa"
@@ -104,6 +106,15 @@ func (sdc *signingDoneCheck) listen(
 			case netMessage := <-messagesChan:
 				doneMessage, ok := netMessage.Payload().(*signingDoneMessage)
 				if !ok {
+					continue
+				}
+
+				// Only members taking part in the given attempt can
+				// confirm its completion.
+				if !slices.Contains(
+					attemptMembersIndexes,
+					doneMessage.senderID,
+				) {
 					continue
 				}
 
